@@ -141,5 +141,6 @@ class SocketSpawn(SpawnBase):
                     self.flag_eof = True
                     raise EOF("Socket closed")
                 return s
-        except socket.timeout:
+        except (socket.timeout, BlockingIOError):
+            # BlockingIOError: timeout 0 makes the socket non-blocking
             raise TIMEOUT("Timeout exceeded.")
